@@ -1,4 +1,6 @@
 import Driver.Loop
 import Driver.C11
+import Driver.C04
+import Driver.C05
 
-def main : IO Unit := Driver.runMain [Driver.C11.handle]
+def main : IO Unit := Driver.runMain [Driver.C11.handle, Driver.C04.handle, Driver.C05.handle]
